@@ -764,6 +764,30 @@ func c08Rtmp(c *h.Ctx) {
 	if c.Hold(st == "ok", "rtmp.write.ok", rmsgsStr(pk), st, "ok") {
 		c08RtmpWriteSweeps(c, pk, wire, cum, calls, nil, "writepacket", true)
 	}
+	// chunk streams the library's own writer never produces: the 2- and 3-byte forms of the basic header (chunk stream ids
+	// 64..65599), written here at the chunk level. A cut or a fault between the bytes of such a header surfaces with its
+	// root cause like everywhere else.
+	{
+		wide := []rmsg{{cid: 64, ty: 9, sid: 1, ts: 10, payload: h.LCGBytes(40, 1), desc: "p:40:1"}, {cid: 320, ty: 8, sid: 1, ts: 0x1000000, payload: h.LCGBytes(300, 2), desc: "p:300:2"},
+			{cid: 65599, ty: 18, sid: 1, ts: 5, payload: h.LCGBytes(129, 3), desc: "p:129:3"}, {cid: 319, ty: 9, sid: 1, ts: 11, payload: h.LCGBytes(3, 4), desc: "p:3:4"}, {cid: 3, ty: 20, sid: 0, ts: 0, payload: h.LCGBytes(12, 5), desc: "p:12:5"}}
+		var wire []byte
+		var cum []int
+		for _, m := range wide {
+			for off := 0; off < len(m.payload); off += 128 {
+				end := off + 128
+				if end > len(m.payload) {
+					end = len(m.payload)
+				}
+				f := 0
+				if off > 0 {
+					f = 3
+				}
+				wire = append(wire, rtmpChunk(f, int(m.cid), uint32(m.ts), uint32(len(m.payload)), m.ty, m.sid, m.ts >= 0xffffff, m.payload[off:end])...)
+			}
+			cum = append(cum, len(wire))
+		}
+		c08RtmpReadSweeps(c, wide, wire, cum, nil, "wide-chunk-stream-ids")
+	}
 	// regression of the F17 family (fixed, known_findings.d/C01.json): a message longer than the input chunk size,
 	// cut exactly at the chunk boundary, must end with an error — not with a nil-dereference panic
 	f17 := []rmsg{{cid: 5, ty: 9, sid: 1, ts: 0, payload: h.LCGBytes(129, 7), desc: "p:129:7"}}
